@@ -24,3 +24,5 @@ def run(rep):
     cr.rule_steps(rep, rid_order="C11.refs", want=("order",))
     cr.rule_tags(rep, "C11.tagorder", "C11.refs")
     ms.rule_det(rep, "C11.det")
+    # no hidden state: what the property promises for one use must hold for every later use as well
+    ms.rule_stateless(rep, "C11")
